@@ -275,6 +275,83 @@ def fill_oracle(case) -> Info:
     return Info(nontrivial=True, classes=(f"fill:{kind}",), sample={"reader": kind, "cfg": list(cfg), "fill_octet": v, "fed": fed})
 
 
+# ---- one huge chunk, then small ones: the bound depends on the LAST chunk only ----------------------------------------------------------
+
+BIG = 512 * 1024
+_BTS = [("hdlc", n, cfg) for n in HDLC_PATTERNS for cfg in HDLC_CFGS[:3]] + [("p1", n, ()) for n in P1_PATTERNS]
+
+
+def bts_oracle(case) -> Info:
+    kind, name, cfg = case[0], case[1], tuple(case[2])
+    small = 64
+    pats = HDLC_PATTERNS if kind == "hdlc" else P1_PATTERNS
+    stream = b"".join(pats[name](65536, BIG + 65536, 1))
+    reader = hdlc.HdlcFrameReader(use_octet_stuffing=cfg[0], use_abort_sequence=cfg[1]) if kind == "hdlc" else dlde.ModeDReader()
+    guarded(reader.read, stream[:BIG], what=f"{type(reader).__name__}.read")
+    bound = bound_for(kind, small)
+    for k in range(48):
+        ch = stream[BIG + k * small : BIG + (k + 1) * small]
+        if name in ("never-ending-frame", "slash-no-lf", "ident-then-no-lf", "no-flag-random", "no-lf-random") or k % 2:
+            ch = bytes(b for b in ch if b not in (FLAG, 0x0A)) or b"\x55"  # also: no flag / line end arrives for a while
+        guarded(reader.read, ch, what=f"{type(reader).__name__}.read")
+        size = deep_size(reader)
+        if size > bound:
+            fail(f"{kind} reader {cfg} retains {size} bytes after one {BIG}-byte chunk of pattern '{name}' followed by {k + 1} chunks of <= {small} bytes (bound {bound} = constant + 2 x LAST chunk)", sig=f"{kind}-big-then-small")
+    return Info(nontrivial=True, classes=(f"{kind}:{name}",), sample={"reader": kind, "cfg": list(cfg), "pattern": name, "big": BIG, "small": small})
+
+
+# ---- memory of the whole process (caches, class-level tables), not only what hangs off the reader object --------------------------------
+
+_PG = [("hdlc", n, cfg, ch) for n in ("valid-frames-all-different", "random", "dense") for cfg in HDLC_CFGS[:2] for ch in (64, 4096)] + [
+    ("p1", n, (), ch) for n in ("valid-readouts-all-different", "slash-lines-all-different", "ident-lines-all-different", "random-ascii", "random") for ch in (64, 4096)
+]
+
+
+def _var_slash_line(i):
+    return f"/{i:x} noise {i * 7919:012d}\r\n".encode()
+
+
+def _var_ident_line(i):
+    return f"/ABC5{i:011d}\r\n".encode()
+
+
+P1_PATTERNS["slash-lines-all-different"] = lambda c, t, s: _varying(_var_slash_line, c, t)
+P1_PATTERNS["ident-lines-all-different"] = lambda c, t, s: _varying(_var_ident_line, c, t)
+
+
+def pg_oracle(case) -> Info:
+    import tracemalloc
+
+    kind, name, cfg, chunk = case[0], case[1], tuple(case[2]), case[3]
+    total = 448 * 1024
+    pats = HDLC_PATTERNS if kind == "hdlc" else P1_PATTERNS
+    reader = hdlc.HdlcFrameReader(use_octet_stuffing=cfg[0], use_abort_sequence=cfg[1]) if kind == "hdlc" else dlde.ModeDReader()
+    bound = bound_for(kind, chunk)
+    gen = pats[name](chunk, total, 1)
+    fed = 0
+    base = None
+    tracemalloc.start(1)
+    try:
+        for ch in gen:
+            guarded(reader.read, ch, what=f"{type(reader).__name__}.read")
+            fed += len(ch)
+            if base is None and fed >= total // 4:
+                gc.collect()
+                base = (tracemalloc.get_traced_memory()[0], fed)
+        gc.collect()
+        end = tracemalloc.get_traced_memory()[0]
+    finally:
+        tracemalloc.stop()
+    growth = end - base[0]
+    if growth > bound:
+        fail(
+            f"process memory (tracemalloc, after gc) grew by {growth} bytes between {base[1]} and {fed} bytes of pattern '{name}' fed to one {kind} reader {cfg} in {chunk}-byte chunks "
+            f"(bound {bound}); the reader object itself holds {deep_size(reader)} bytes - the rest is retained elsewhere (a cache or class-level table filled by read())",
+            sig=f"{kind}-process-growth",
+        )
+    return Info(nontrivial=True, classes=(f"{kind}:{name}",), sample={"reader": kind, "cfg": list(cfg), "pattern": name, "chunk": chunk, "fed": fed, "growth": growth, "bound": bound})
+
+
 def case_at(i, tier):
     import os
 
@@ -308,6 +385,8 @@ def build() -> Check:
         clauses=[
             HypClause("drawn", drawn_case_st, drawn_oracle, quick=400, thorough=8000, doc="Hypothesis-drawn prefix + endlessly repeated block of up to 6 tokens, drawn chunk size, 96-384 KiB per case"),
             EnumClause("fill-octets", size=lambda tier: 256 * 3, case_at=fill_case, oracle=fill_oracle, doc="unfinished frame/readout + endless run of one octet value, all 256 values x {HDLC plain, HDLC stuffing, P1}"),
+            EnumClause("big-then-small", size=lambda tier: len(_BTS), case_at=lambda i, tier: _BTS[i], oracle=bts_oracle, doc="every pattern: one 512 KiB chunk, then 48 chunks of <= 64 bytes (every other one without flag / line end); bound = constant + 2 x 64 after each small chunk", exhaustive=False),
+            EnumClause("process-growth", size=lambda tier: len(_PG), case_at=lambda i, tier: _PG[i], oracle=pg_oracle, doc="all-different frames / readouts / '/' lines / identification lines and random noise: growth of the PROCESS's traced memory between 25% and 100% of 448 KiB must stay below the same bound (catches caches and class-level tables)", exhaustive=False),
             EnumClause("patterns", size=lambda tier: len(_cases(tier)), case_at=case_at, oracle=oracle, doc="pattern x chunk size grid", exhaustive=False),
         ],
     )
